@@ -1,4 +1,6 @@
 """C14 - concurrent senders never corrupt the outbound sequence (controlled scheduler over real suspension points)."""
+import asyncio
+
 from hypothesis import strategies as st
 
 from asyncfix import FMsg
@@ -34,7 +36,7 @@ def RULE(tier):
         "pre-filled journal (also two requests back to back), a TestRequest, a frame above the expected number, an application "
         "message, the first Logon, the heartbeat path (send_test_req), and an initiator application sending its first Logon while "
         "other tasks send Logout / application messages, and an application task that ends the connection (disconnect() with or without a Logout). EXHAUSTIVE depth-first enumeration of all choice "
-        f"sequences (start a task / open gate k / pause / resume / reset the connection while senders wait in drain) up to {G[tier]} choices, each schedule re-executed from scratch and then "
+        f"sequences (start a task / open gate k / pause / resume / reset the connection while senders wait in drain / cancel an application task that is suspended in its send) up to {G[tier]} choices, each schedule re-executed from scratch and then "
         "run to completion, plus Hypothesis-drawn longer schedules. Oracle on the bytes written, in wire order: the concatenation of all writes is a sequence of well-formed frames; new frames (no "
         "PossDupFlag, not SequenceReset) carry distinct, strictly increasing MsgSeqNums; a PossDup frame repeats a number sent "
         "before with the same body; no task raised anything but FIXConnectionError (in particular no DuplicateSeqNoError); every "
@@ -54,6 +56,7 @@ ASSUMPTIONS = [
 class Sched:
     def __init__(self, tasks, start="active"):
         self.tasknames = tuple(tasks)
+        self.cancelled = set()
         if any(t.startswith("I:") for t in tasks):
             from checks.c11 import make_bench
 
@@ -109,6 +112,8 @@ class Sched:
             self.payload += 1
             try:
                 await self.ep.send_msg(FIXMessage(FMsg.NEWORDERSINGLE, {11: f"{name}{i}", 58: f"new {name}{i}" + ("x" * 100000 if name == "L" else "")}))
+            except asyncio.CancelledError:
+                return  # cancelled by the scheduler: the send was abandoned by its caller
             except FIXConnectionError:
                 pass
             except ConnectionError:
@@ -209,6 +214,11 @@ class Sched:
                 out.append(("fail",))  # the connection is reset while senders wait for the buffer to drain
         else:
             out.append(("pause",))
+        # an application task whose send is cancelled while it waits (asyncio.wait_for(conn.send_msg(m), timeout), task.cancel())
+        for n in ("A", "B", "L"):
+            t = self.tasks.get(n)
+            if t is not None and not t.done() and n not in self.cancelled:
+                out.append(("cancel", n))
         return out
 
     def apply(self, c):
@@ -218,6 +228,11 @@ class Sched:
             self.open(c[1])
         elif c[0] == "pause":
             self.pause()
+        elif c[0] == "cancel":
+            self.cancelled.add(c[1])
+            self.tasks[c[1]].cancel()
+            self.w.idle()
+            self._track()
         elif c[0] == "fail":
             self.failed = True
             self.writer.fail(ConnectionResetError("simulated reset while draining"))
